@@ -328,44 +328,54 @@ theorem wf_applyOv (d : String) (ov : OvBin) (a b : Node) :
 theorem wf_int (d : String) (i : Int) : wf false (toT d (Node.int i)) = true := by
   simp only [toT]; split <;> simp [wf]
 
-theorem wf_buildN (d : String) (e : NumE) : wf false (toT d (buildN e)) = true := by
-  induction e with
-  | col c => simp [buildN, toT, wf]
-  | const i => simp only [buildN]; exact wf_int d i
-  | ar o l r ihl ihr =>
-    simp only [buildN]
-    split
-    · simp only [toT]; split <;> simp [wf, ihl, ihr]
-    · split <;> simp [wf_applyOv, ihl, ihr]
-  | neg x ih => simp [buildN, toT, wf, ih]
-  | pos x ih => simp [buildN, toT, wf, ih]
-
-theorem wf_buildItems (d : String) (items : List (Option NumE)) :
-    wf true (toT d (buildItems items)) = true := by
-  induction items with
-  | nil => simp [buildItems, toT, wf]
-  | cons h t ih => cases h <;> simp [buildItems, toT, wf, ih, wf_buildN]
-
 theorem wf_noneRule (d : String) (rule : NoneRule) (ov : OvBin) (a : Node) (h : wf false (toT d a) = true) :
     wf false (toT d (noneRule rule ov a)) = true := by
   cases rule <;> simp [noneRule, toT, wf, wf_applyOv, h]
 
-theorem wf_buildB (d : String) (e : BoolE) : wf false (toT d (buildB e)) = true := by
-  induction e with
-  | cmp o l r => simp only [buildB]; split <;> simp [wf_applyOv, wf_buildN]
-  | andOp l r ihl ihr => simp [buildB, wf_applyOv, ihl, ihr]
-  | orOp l r ihl ihr => simp [buildB, wf_applyOv, ihl, ihr]
-  | andFn l r ihl ihr => simp [buildB, toT, wf, ihl, ihr]
-  | orFn l r ihl ihr => simp [buildB, toT, wf, ihl, ihr]
-  | notOp x ih => simp [buildB, toT, wf, ih]
-  | notFn x ih => simp [buildB, toT, wf, ih]
-  | isin x items => simp [buildB, toT, wf, wf_buildN, wf_buildItems]
-  | notin x items => simp only [buildB]; split <;> simp [toT, wf, wf_buildN, wf_buildItems]
-  | isnull x => simp [buildB, toT, wf, wf_buildN]
-  | isnotnull x => simp [buildB, toT, wf, wf_buildN]
-  | eqNone x => simp only [buildB]; split <;> exact wf_noneRule _ _ _ _ (wf_buildN d x)
-  | neNone x => simp only [buildB]; split <;> exact wf_noneRule _ _ _ _ (wf_buildN d x)
+def isItems : Srt → Bool
+  | .items => true
+  | _ => false
 
+theorem wf_build (d : String) {s : Srt} (e : E s) : wf (isItems s) (toT d (build e)) = true := by
+  induction e with
+  | col c => simp [build, toT, wf, isItems]
+  | const i => simp only [build, isItems]; exact wf_int d i
+  | ar o l r ihl ihr =>
+    simp only [isItems] at ihl ihr ⊢
+    simp only [build]
+    split
+    · simp only [toT]; split <;> simp [wf, ihl, ihr]
+    · split <;> simp [wf_applyOv, ihl, ihr]
+  | neg x ih => simp only [isItems] at ih ⊢; simp [build, toT, wf, ih]
+  | pos x ih => simp only [isItems] at ih ⊢; simp [build, toT, wf, ih]
+  | b2i b ih => simp only [isItems] at ih ⊢; simpa [build] using ih
+  | cmp o l r ihl ihr =>
+    simp only [isItems] at ihl ihr ⊢
+    simp only [build]; split <;> simp [wf_applyOv, ihl, ihr]
+  | andOp l r ihl ihr => simp only [isItems] at ihl ihr ⊢; simp [build, wf_applyOv, ihl, ihr]
+  | orOp l r ihl ihr => simp only [isItems] at ihl ihr ⊢; simp [build, wf_applyOv, ihl, ihr]
+  | andFn l r ihl ihr => simp only [isItems] at ihl ihr ⊢; simp [build, toT, wf, ihl, ihr]
+  | orFn l r ihl ihr => simp only [isItems] at ihl ihr ⊢; simp [build, toT, wf, ihl, ihr]
+  | notOp x ih => simp only [isItems] at ih ⊢; simp [build, toT, wf, ih]
+  | notFn x ih => simp only [isItems] at ih ⊢; simp [build, toT, wf, ih]
+  | isin x l ihx ihl => simp only [isItems] at ihx ihl ⊢; simp [build, toT, wf, ihx, ihl]
+  | notin x l ihx ihl =>
+    simp only [isItems] at ihx ihl ⊢
+    simp only [build]; split <;> simp [toT, wf, ihx, ihl]
+  | isnull x ih => simp only [isItems] at ih ⊢; simp [build, toT, wf, ih]
+  | isnotnull x ih => simp only [isItems] at ih ⊢; simp [build, toT, wf, ih]
+  | eqNone x ih =>
+    simp only [isItems] at ih ⊢
+    simp only [build]; split <;> exact wf_noneRule _ _ _ _ ih
+  | neNone x ih =>
+    simp only [isItems] at ih ⊢
+    simp only [build]; split <;> exact wf_noneRule _ _ _ _ ih
+  | inil => simp [build, toT, wf, isItems]
+  | inull t ih => simp only [isItems] at ih ⊢; simp [build, toT, wf, ih]
+  | icons h t ihh iht => simp only [isItems] at ihh iht ⊢; simp [build, toT, wf, ihh, iht]
+
+theorem wf_buildN (d : String) (e : NumE) : wf false (toT d (buildN e)) = true := wf_build d e
+theorem wf_buildB (d : String) (e : BoolE) : wf false (toT d (buildB e)) = true := wf_build d e
 
 /-! ## the value of the parsed text is the three-valued value of the source tree -/
 
@@ -432,37 +442,6 @@ theorem binSem_ar (o : ArOp) (x y : Option Int) :
     simp [arOv, arRov, Extracted.add, Extracted.sub, Extracted.mul, Extracted.div, Extracted.radd, Extracted.rsub,
       Extracted.rmul, Extracted.rdiv, Extracted.moduloOp, binSem, lift2, arSem]
 
-theorem ev_buildN (r : Row) (d : String) (e : NumE) : ev r (toT d (buildN e)) = .v (evalN r e) := by
-  induction e with
-  | col c => simp [buildN, toT, ev, evalN]
-  | const i => simp only [buildN, evalN]; exact ev_int r d i
-  | ar o l x ihl ihx =>
-    simp only [buildN, evalN]
-    split
-    · rename_i ho; subst ho
-      have hm := (binSem_ar .mod (evalN r l) (evalN r x)).1
-      simp only [arOv] at hm
-      simp only [toT]
-      split
-      · simp [ev, ihl, ihx, hm]
-      · simp [ev, ihl, ihx]
-        simpa [Extracted.moduloOp] using hm
-    · have h := binSem_ar o
-      split
-      · rw [ev_applyOv r d _ _ _ _ _ ihx ihl]
-        simp [(h (evalN r l) (evalN r x)).2.2]
-      · rw [ev_applyOv r d _ _ _ _ _ ihl ihx]
-        simp [(h (evalN r l) (evalN r x)).1, (h (evalN r l) (evalN r x)).2.1]
-  | neg x ih => simp [buildN, toT, ev, evalN, ih, Extracted.negOp, preSem]
-  | pos x ih => simp [buildN, toT, ev, evalN, ih, Extracted.posOp, preSem]
-
-
-theorem ev_buildItems (r : Row) (d : String) (items : List (Option NumE)) :
-    ev r (toT d (buildItems items)) = .l (items.map (evalItem r)) := by
-  induction items with
-  | nil => simp [buildItems, toT, ev]
-  | cons h t ih => cases h <;> simp [buildItems, toT, ev, ih, ev_buildN, evalItem]
-
 theorem binSem_cmp (f : Bool) (o : CmpOp) (x y : Option Int) :
     binSem (cmpOv f o).op x y = (cmpSem o x y).map b2i ∧ (cmpOv f o).swapped = false ∧
     binSem (cmpOv f o.flip).op y x = (cmpSem o x y).map b2i := by
@@ -485,41 +464,76 @@ theorem binSem_is_none (x : Option Int) : binSem .is x none = some (b2i x.isNone
 theorem binSem_isNot_none (x : Option Int) : binSem .isNot x none = some (b2i x.isSome) := by
   cases x <;> simp [binSem, bne]
 
-theorem ev_buildB (r : Row) (d : String) (e : BoolE) :
-    ev r (toT d (buildB e)) = .v ((evalB r e).map b2i) := by
+theorem ev_build (r : Row) (d : String) {s : Srt} (e : E s) :
+    ev r (toT d (build e)) = embed s (eval r e) := by
   induction e with
-  | cmp o l x =>
-    simp only [buildB, evalB]
+  | col c => simp [build, toT, ev, eval, embed]
+  | const i => simp only [build, eval, embed]; exact ev_int r d i
+  | ar o l x ihl ihx =>
+    simp only [embed] at ihl ihx ⊢
+    simp only [build, eval]
+    split
+    · rename_i ho; subst ho
+      have hm := (binSem_ar .mod (eval r l) (eval r x)).1
+      simp only [arOv] at hm
+      simp only [toT]
+      split
+      · simp [ev, ihl, ihx, hm]
+      · simp [ev, ihl, ihx]
+        simpa [Extracted.moduloOp] using hm
+    · have h := binSem_ar o
+      split
+      · rw [ev_applyOv r d _ _ _ _ _ ihx ihl]
+        simp [(h (eval r l) (eval r x)).2.2]
+      · rw [ev_applyOv r d _ _ _ _ _ ihl ihx]
+        simp [(h (eval r l) (eval r x)).1, (h (eval r l) (eval r x)).2.1]
+  | neg x ih => simp only [embed] at ih ⊢; simp [build, toT, ev, eval, ih, Extracted.negOp, preSem]
+  | pos x ih => simp only [embed] at ih ⊢; simp [build, toT, ev, eval, ih, Extracted.posOp, preSem]
+  | b2i b ih => simp only [embed] at ih ⊢; simpa [build, eval] using ih
+  | cmp o l x ihl ihx =>
+    simp only [embed] at ihl ihx ⊢
+    simp only [build, eval]
     have h := binSem_cmp
     split
-    · rw [ev_applyOv r d _ _ _ _ _ (ev_buildN r d x) (ev_buildN r d l)]
-      simp [(h _ o.flip (evalN r x) (evalN r l)).2.1, (h _ o (evalN r l) (evalN r x)).2.2]
-    · rw [ev_applyOv r d _ _ _ _ _ (ev_buildN r d l) (ev_buildN r d x)]
-      simp [(h _ o (evalN r l) (evalN r x)).2.1, (h _ o (evalN r l) (evalN r x)).1]
+    · rw [ev_applyOv r d _ _ _ _ _ ihx ihl]
+      simp [(h _ o.flip (eval r x) (eval r l)).2.1, (h _ o (eval r l) (eval r x)).2.2]
+    · rw [ev_applyOv r d _ _ _ _ _ ihl ihx]
+      simp [(h _ o (eval r l) (eval r x)).2.1, (h _ o (eval r l) (eval r x)).1]
   | andOp l x ihl ihx =>
-    simp only [buildB, evalB]
+    simp only [embed] at ihl ihx ⊢
+    simp only [build, eval]
     rw [ev_applyOv r d _ _ _ _ _ ihl ihx]
     simp [Extracted.andOp, binSem_and]
   | orOp l x ihl ihx =>
-    simp only [buildB, evalB]
+    simp only [embed] at ihl ihx ⊢
+    simp only [build, eval]
     rw [ev_applyOv r d _ _ _ _ _ ihl ihx]
     simp [Extracted.orOp, binSem_or]
-  | andFn l x ihl ihx => simp [buildB, evalB, toT, ev, ihl, ihx, Extracted.andFn, binSem_and]
-  | orFn l x ihl ihx => simp [buildB, evalB, toT, ev, ihl, ihx, Extracted.orFn, binSem_or]
-  | notOp x ih => simp [buildB, evalB, toT, ev, ih, Extracted.invertOp, preSem_not]
-  | notFn x ih => simp [buildB, evalB, toT, ev, ih, Extracted.notFn, preSem_not]
-  | isin x items => simp [buildB, evalB, toT, ev, ev_buildN, ev_buildItems, in3_eq_inSpec]
-  | notin x items =>
-    simp [buildB, evalB, toT, ev, ev_buildN, ev_buildItems, in3_eq_inSpec, Extracted.notinNegates, Extracted.notFn, preSem_not]
-  | isnull x => simp [buildB, evalB, toT, ev, ev_buildN, Extracted.isnullOp, binSem_is_none]
-  | isnotnull x => simp [buildB, evalB, toT, ev, ev_buildN, Extracted.isnotnullOp, binSem_isNot_none]
-  | eqNone x =>
-    simp only [buildB, evalB]
-    split <;> simp [noneRule, Extracted.fieldEqNone, Extracted.exprEqNone, toT, ev, ev_buildN, Extracted.isnullOp, binSem_is_none]
-  | neNone x =>
-    simp only [buildB, evalB]
-    split <;> simp [noneRule, Extracted.fieldNeNone, Extracted.exprNeNone, toT, ev, ev_buildN, Extracted.isnotnullOp, binSem_isNot_none]
+  | andFn l x ihl ihx => simp only [embed] at ihl ihx ⊢; simp [build, eval, toT, ev, ihl, ihx, Extracted.andFn, binSem_and]
+  | orFn l x ihl ihx => simp only [embed] at ihl ihx ⊢; simp [build, eval, toT, ev, ihl, ihx, Extracted.orFn, binSem_or]
+  | notOp x ih => simp only [embed] at ih ⊢; simp [build, eval, toT, ev, ih, Extracted.invertOp, preSem_not]
+  | notFn x ih => simp only [embed] at ih ⊢; simp [build, eval, toT, ev, ih, Extracted.notFn, preSem_not]
+  | isin x l ihx ihl => simp only [embed] at ihx ihl ⊢; simp [build, eval, toT, ev, ihx, ihl, in3_eq_inSpec]
+  | notin x l ihx ihl =>
+    simp only [embed] at ihx ihl ⊢
+    simp [build, eval, toT, ev, ihx, ihl, in3_eq_inSpec, Extracted.notinNegates, Extracted.notFn, preSem_not]
+  | isnull x ih => simp only [embed] at ih ⊢; simp [build, eval, toT, ev, ih, Extracted.isnullOp, binSem_is_none]
+  | isnotnull x ih => simp only [embed] at ih ⊢; simp [build, eval, toT, ev, ih, Extracted.isnotnullOp, binSem_isNot_none]
+  | eqNone x ih =>
+    simp only [embed] at ih ⊢
+    simp only [build, eval]
+    split <;> simp [noneRule, Extracted.fieldEqNone, Extracted.exprEqNone, toT, ev, ih, Extracted.isnullOp, binSem_is_none]
+  | neNone x ih =>
+    simp only [embed] at ih ⊢
+    simp only [build, eval]
+    split <;> simp [noneRule, Extracted.fieldNeNone, Extracted.exprNeNone, toT, ev, ih, Extracted.isnotnullOp, binSem_isNot_none]
+  | inil => simp [build, toT, ev, eval, embed]
+  | inull t ih => simp only [embed] at ih ⊢; simp [build, toT, ev, eval, ih]
+  | icons h t ihh iht => simp only [embed] at ihh iht ⊢; simp [build, toT, ev, eval, ihh, iht]
 
+theorem ev_buildN (r : Row) (d : String) (e : NumE) : ev r (toT d (buildN e)) = .v (evalN r e) := ev_build r d e
+theorem ev_buildB (r : Row) (d : String) (e : BoolE) :
+    ev r (toT d (buildB e)) = .v ((evalB r e).map b2i) := ev_build r d e
 
 /-! ## no (in)equality operator is followed by NULL -/
 
@@ -587,18 +601,6 @@ theorem hasEqNull_rend (t : T) : ∀ b k, hasEqNull (rend b t ++ k) = (eqNullT t
 theorem isNull_applyOv (d : String) (ov : OvBin) (a b : Node) : (toT d (applyOv ov a b)).isNull = false := by
   unfold applyOv; split <;> simp [toT, T.isNull]
 
-theorem isNull_buildN (d : String) (e : NumE) : (toT d (buildN e)).isNull = false := by
-  cases e with
-  | col c => simp [buildN, toT, T.isNull]
-  | const i => simp only [buildN, toT]; split <;> simp [T.isNull]
-  | ar o l r =>
-    simp only [buildN]
-    split
-    · simp only [toT]; split <;> simp [T.isNull]
-    · split <;> exact isNull_applyOv _ _ _ _
-  | neg x => simp [buildN, toT, T.isNull]
-  | pos x => simp [buildN, toT, T.isNull]
-
 theorem eqNullT_applyOv (d : String) (ov : OvBin) (a b : Node)
     (ha : (toT d a).isNull = false) (hb : (toT d b).isNull = false) :
     eqNullT (toT d (applyOv ov a b)) = (eqNullT (toT d a) || eqNullT (toT d b)) := by
@@ -607,24 +609,6 @@ theorem eqNullT_applyOv (d : String) (ov : OvBin) (a b : Node)
 theorem eqNullT_int (d : String) (i : Int) : eqNullT (toT d (Node.int i)) = false := by
   simp only [toT]; split <;> simp [eqNullT]
 
-theorem eqNullT_buildN (d : String) (e : NumE) : eqNullT (toT d (buildN e)) = false := by
-  induction e with
-  | col c => simp [buildN, toT, eqNullT]
-  | const i => simp only [buildN]; exact eqNullT_int d i
-  | ar o l r ihl ihr =>
-    simp only [buildN]
-    split
-    · simp only [toT]; split <;> simp [eqNullT, ihl, ihr, isNull_buildN]
-    · split <;> simp [eqNullT_applyOv, isNull_buildN, ihl, ihr]
-  | neg x ih => simp [buildN, toT, eqNullT, ih]
-  | pos x ih => simp [buildN, toT, eqNullT, ih]
-
-theorem eqNullT_buildItems (d : String) (items : List (Option NumE)) :
-    eqNullT (toT d (buildItems items)) = false := by
-  induction items with
-  | nil => simp [buildItems, toT, eqNullT]
-  | cons h t ih => cases h <;> simp [buildItems, toT, eqNullT, ih, eqNullT_buildN]
-
 theorem isNull_noneRule (d : String) (rule : NoneRule) (ov : OvBin) (a : Node) :
     (toT d (noneRule rule ov a)).isNull = false := by
   cases rule
@@ -632,48 +616,75 @@ theorem isNull_noneRule (d : String) (rule : NoneRule) (ov : OvBin) (a : Node) :
   · simp [noneRule, toT, T.isNull]
   · exact isNull_applyOv _ _ _ _
 
-theorem isNull_buildB (d : String) (e : BoolE) : (toT d (buildB e)).isNull = false := by
-  cases e with
-  | cmp o l r => simp only [buildB]; split <;> exact isNull_applyOv _ _ _ _
+theorem isNull_build (d : String) {s : Srt} (e : E s) : (toT d (build e)).isNull = false := by
+  induction e with
+  | col c => simp [build, toT, T.isNull]
+  | const i => simp only [build, toT]; split <;> simp [T.isNull]
+  | ar o l r =>
+    simp only [build]
+    split
+    · simp only [toT]; split <;> simp [T.isNull]
+    · split <;> exact isNull_applyOv _ _ _ _
+  | neg x => simp [build, toT, T.isNull]
+  | pos x => simp [build, toT, T.isNull]
+  | b2i b ih => simpa [build] using ih
+  | cmp o l r => simp only [build]; split <;> exact isNull_applyOv _ _ _ _
   | andOp l r => exact isNull_applyOv _ _ _ _
   | orOp l r => exact isNull_applyOv _ _ _ _
-  | andFn l r => simp [buildB, toT, T.isNull]
-  | orFn l r => simp [buildB, toT, T.isNull]
-  | notOp x => simp [buildB, toT, T.isNull]
-  | notFn x => simp [buildB, toT, T.isNull]
-  | isin x items => simp [buildB, toT, T.isNull]
-  | notin x items => simp only [buildB]; split <;> simp [toT, T.isNull]
-  | isnull x => simp [buildB, toT, T.isNull]
-  | isnotnull x => simp [buildB, toT, T.isNull]
-  | eqNone x => simp only [buildB]; split <;> exact isNull_noneRule _ _ _ _
-  | neNone x => simp only [buildB]; split <;> exact isNull_noneRule _ _ _ _
+  | andFn l r => simp [build, toT, T.isNull]
+  | orFn l r => simp [build, toT, T.isNull]
+  | notOp x => simp [build, toT, T.isNull]
+  | notFn x => simp [build, toT, T.isNull]
+  | isin x l => simp [build, toT, T.isNull]
+  | notin x l => simp only [build]; split <;> simp [toT, T.isNull]
+  | isnull x => simp [build, toT, T.isNull]
+  | isnotnull x => simp [build, toT, T.isNull]
+  | eqNone x => simp only [build]; split <;> exact isNull_noneRule _ _ _ _
+  | neNone x => simp only [build]; split <;> exact isNull_noneRule _ _ _ _
+  | inil => simp [build, toT, T.isNull]
+  | inull t => simp [build, toT, T.isNull]
+  | icons h t => simp [build, toT, T.isNull]
 
-theorem eqNullT_noneRule (d : String) (x : NumE) :
-    eqNullT (toT d (noneRule Extracted.fieldEqNone Extracted.fieldEq (buildN x))) = false ∧
-    eqNullT (toT d (noneRule Extracted.exprEqNone Extracted.exprEq (buildN x))) = false ∧
-    eqNullT (toT d (noneRule Extracted.fieldNeNone Extracted.fieldNe (buildN x))) = false ∧
-    eqNullT (toT d (noneRule Extracted.exprNeNone Extracted.exprNe (buildN x))) = false := by
+theorem eqNullT_noneRule (d : String) (a : Node) (h : eqNullT (toT d a) = false) :
+    eqNullT (toT d (noneRule Extracted.fieldEqNone Extracted.fieldEq a)) = false ∧
+    eqNullT (toT d (noneRule Extracted.exprEqNone Extracted.exprEq a)) = false ∧
+    eqNullT (toT d (noneRule Extracted.fieldNeNone Extracted.fieldNe a)) = false ∧
+    eqNullT (toT d (noneRule Extracted.exprNeNone Extracted.exprNe a)) = false := by
   simp [noneRule, Extracted.fieldEqNone, Extracted.exprEqNone, Extracted.fieldNeNone, Extracted.exprNeNone, toT, eqNullT,
-    eqNullT_buildN, Extracted.isnullOp, Extracted.isnotnullOp, Tok.isEqLike, BinOp.spell]
+    h, Extracted.isnullOp, Extracted.isnotnullOp, Tok.isEqLike, BinOp.spell]
 
-theorem eqNullT_buildB (d : String) (e : BoolE) : eqNullT (toT d (buildB e)) = false := by
+theorem eqNullT_build (d : String) {s : Srt} (e : E s) : eqNullT (toT d (build e)) = false := by
   induction e with
-  | cmp o l r =>
-    simp only [buildB]
-    split <;> simp [eqNullT_applyOv, isNull_buildN, eqNullT_buildN]
-  | andOp l r ihl ihr => simp [buildB, eqNullT_applyOv, isNull_buildB, ihl, ihr]
-  | orOp l r ihl ihr => simp [buildB, eqNullT_applyOv, isNull_buildB, ihl, ihr]
-  | andFn l r ihl ihr => simp [buildB, toT, eqNullT, isNull_buildB, ihl, ihr]
-  | orFn l r ihl ihr => simp [buildB, toT, eqNullT, isNull_buildB, ihl, ihr]
-  | notOp x ih => simp [buildB, toT, eqNullT, ih]
-  | notFn x ih => simp [buildB, toT, eqNullT, ih]
-  | isin x items => simp [buildB, toT, eqNullT, eqNullT_buildN, eqNullT_buildItems]
-  | notin x items => simp only [buildB]; split <;> simp [toT, eqNullT, eqNullT_buildN, eqNullT_buildItems]
-  | isnull x => simp [buildB, toT, eqNullT, eqNullT_buildN, Extracted.isnullOp, Tok.isEqLike, BinOp.spell]
-  | isnotnull x => simp [buildB, toT, eqNullT, eqNullT_buildN, Extracted.isnotnullOp, Tok.isEqLike, BinOp.spell]
-  | eqNone x => simp only [buildB]; split <;> simp [eqNullT_noneRule]
-  | neNone x => simp only [buildB]; split <;> simp [eqNullT_noneRule]
+  | col c => simp [build, toT, eqNullT]
+  | const i => simp only [build]; exact eqNullT_int d i
+  | ar o l r ihl ihr =>
+    simp only [build]
+    split
+    · simp only [toT]; split <;> simp [eqNullT, ihl, ihr, isNull_build]
+    · split <;> simp [eqNullT_applyOv, isNull_build, ihl, ihr]
+  | neg x ih => simp [build, toT, eqNullT, ih]
+  | pos x ih => simp [build, toT, eqNullT, ih]
+  | b2i b ih => simpa [build] using ih
+  | cmp o l r ihl ihr =>
+    simp only [build]
+    split <;> simp [eqNullT_applyOv, isNull_build, ihl, ihr]
+  | andOp l r ihl ihr => simp [build, eqNullT_applyOv, isNull_build, ihl, ihr]
+  | orOp l r ihl ihr => simp [build, eqNullT_applyOv, isNull_build, ihl, ihr]
+  | andFn l r ihl ihr => simp [build, toT, eqNullT, isNull_build, ihl, ihr]
+  | orFn l r ihl ihr => simp [build, toT, eqNullT, isNull_build, ihl, ihr]
+  | notOp x ih => simp [build, toT, eqNullT, ih]
+  | notFn x ih => simp [build, toT, eqNullT, ih]
+  | isin x l ihx ihl => simp [build, toT, eqNullT, ihx, ihl]
+  | notin x l ihx ihl => simp only [build]; split <;> simp [toT, eqNullT, ihx, ihl]
+  | isnull x ih => simp [build, toT, eqNullT, ih, Extracted.isnullOp, Tok.isEqLike, BinOp.spell]
+  | isnotnull x ih => simp [build, toT, eqNullT, ih, Extracted.isnotnullOp, Tok.isEqLike, BinOp.spell]
+  | eqNone x ih => simp only [build]; split <;> simp [eqNullT_noneRule d _ ih]
+  | neNone x ih => simp only [build]; split <;> simp [eqNullT_noneRule d _ ih]
+  | inil => simp [build, toT, eqNullT]
+  | inull t ih => simp [build, toT, eqNullT, ih]
+  | icons h t ihh iht => simp [build, toT, eqNullT, ihh, iht]
 
+theorem eqNullT_buildB (d : String) (e : BoolE) : eqNullT (toT d (buildB e)) = false := eqNullT_build d e
 
 /-! ## n-ary AND / OR -/
 
@@ -710,25 +721,25 @@ theorem evalB_foldR_and (r : Row) (es : List BoolE) : ∀ e,
     evalB r (foldR .andFn e es) = all3 ((e :: es).map (evalB r)) := by
   induction es with
   | nil => intro e; simp only [foldR, List.map]; rw [← and3_all3]; simp [all3, and3_true]
-  | cons e' es ih => intro e; simp only [foldR, evalB, ih]; rw [and3_all3]; rfl
+  | cons e' es ih => intro e; simp only [foldR, evalB, eval, ih]; rw [and3_all3]; rfl
 
 theorem evalB_foldl_and (r : Row) (es : List BoolE) : ∀ e,
     evalB r (es.foldl .andFn e) = (es.map (evalB r)).foldl and3 (evalB r e) := by
   induction es with
   | nil => intro e; rfl
-  | cons e' es ih => intro e; simp only [List.foldl_cons, List.map_cons, ih, evalB]
+  | cons e' es ih => intro e; simp only [List.foldl_cons, List.map_cons, ih, evalB, eval]
 
 theorem evalB_foldR_or (r : Row) (es : List BoolE) : ∀ e,
     evalB r (foldR .orFn e es) = any3 ((e :: es).map (evalB r)) := by
   induction es with
   | nil => intro e; simp only [foldR, List.map]; rw [← or3_any3]; simp [any3, or3_false]
-  | cons e' es ih => intro e; simp only [foldR, evalB, ih]; rw [or3_any3]; rfl
+  | cons e' es ih => intro e; simp only [foldR, evalB, eval, ih]; rw [or3_any3]; rfl
 
 theorem evalB_foldl_or (r : Row) (es : List BoolE) : ∀ e,
     evalB r (es.foldl .orFn e) = (es.map (evalB r)).foldl or3 (evalB r e) := by
   induction es with
   | nil => intro e; rfl
-  | cons e' es ih => intro e; simp only [List.foldl_cons, List.map_cons, ih, evalB]
+  | cons e' es ih => intro e; simp only [List.foldl_cons, List.map_cons, ih, evalB, eval]
 
 theorem evalB_foldFn_and (f : Fold) (r : Row) (e : BoolE) (es : List BoolE) :
     evalB r (foldFn f .andFn e es) = all3 ((e :: es).map (evalB r)) := by
